@@ -946,6 +946,16 @@ def do_replay(path):
         rc = sh(cmd).returncode
         shutil.rmtree(sc, ignore_errors=True)
         return rc
+    if r.get("engine") == "containers":   # the stand-alone container exploration is small: it is re-run whole, the recorded op history names the place
+        d = run_containers(r.get("tier", "quick"), r.get("flavour", "plain"))
+        print("expected signature:", r.get("signature"), "\nrecorded op history:", r.get("input"))
+        hits = [v for v in d["violations"] if ("standalone/" + v["sig"]) == r.get("signature") or v["sig"] == r.get("signature")]
+        for v in hits:
+            print("reproduced:", v["sig"], "::", v["detail"], "::", v["history"])
+        return 1 if hits else 0
+    if r.get("engine") == "c19":
+        print("C19 findings compare whole builds: re-run  python3 run.py check C19 --tier", r.get("tier", "quick"), "\nrecorded:", json.dumps({k: r.get(k) for k in ("corpus", "builds", "line", "reference_line", "other_line")})[:1500])
+        return 1
     print("unknown replay engine", r.get("engine"))
     return 2
 
@@ -958,7 +968,7 @@ def main():
     b = sub.add_parser("build"); b.add_argument("flavours", nargs="*")
     a = ap.parse_args()
     if a.cmd == "build":
-        per = {"plain": ("drv_api", "drv_file", "drv_fault", "drv_damage", "drv_misc"), "asan": ("drv_api", "drv_damage"), "sched": ("drv_sched",), "tsan": ("drv_sched",)}
+        per = {"plain": ("drv_api", "drv_file", "drv_fault", "drv_damage", "drv_misc", "drv_containers", "drv_static"), "asan": ("drv_api", "drv_file", "drv_damage", "drv_misc", "drv_containers"), "sched": ("drv_sched",), "tsan": ("drv_sched",)}
         for f in a.flavours or ["plain"]:
             build(f, per.get(f, ("drv_api",)))
         return 0
